@@ -490,8 +490,20 @@ def check_tree_connected(ctx):
     # the graph whose spanning tree is taken
     trees = [n for v in list(be.env.values()) + [c for _, c, _, _ in be.calls] for n in ast.walk(v)
              if isinstance(n, ast.Call) and U(n.func).endswith('minimum_spanning_tree')]
+    assembled = None
     if not trees:
-        raise AnalysisError('_make_tree: no minimum_spanning_tree call')
+        # the tree assembled by hand from the spanning EDGES: a graph made of edges alone has no isolated node, so every clique must be
+        # added as a node first (a model with a single maximal clique has no edge at all)
+        span = [(s_, c) for s_, c, pc_, lp in be.calls if isinstance(c.func, ast.Attribute) and c.func.attr == 'add_edges_from' and c.args
+                and any(isinstance(n, ast.Call) and U(n.func).endswith('minimum_spanning_edges') for n in ast.walk(c.args[0]))]
+        if len(span) != 1:
+            raise AnalysisError('_make_tree: no minimum_spanning_tree call')
+        s_sp, c_sp = span[0]
+        H = U(c_sp.func.value)
+        trees = [n for n in ast.walk(c_sp.args[0]) if isinstance(n, ast.Call) and U(n.func).endswith('minimum_spanning_edges')]
+        node_src = [T(c.args[0]) for s_, c, pc_, lp in be.calls if isinstance(c.func, ast.Attribute) and c.func.attr == 'add_nodes_from'
+                    and U(c.func.value) == H and c.args and not pc_ and not lp]
+        assembled = (H, node_src, s_sp)
     G = U(trees[0].args[0]) if trees[0].args else None
     builders = []
     for s_, c, pc, loops in method_calls(be, G, 'add_edge'):
@@ -507,6 +519,12 @@ def check_tree_connected(ctx):
     if len(builders) != 1:
         raise AnalysisError('_make_tree: loop over all pairs of maximal cliques not found (%d edge collections on `%s`)' % (len(builders), G))
     b = builders[0]
+
+    def lookup(name):
+        ds = [st for st in ast.walk(fi.node) if isinstance(st, ast.Assign) and len(st.targets) == 1 and isinstance(st.targets[0], ast.Name)
+              and st.targets[0].id == name]
+        return ds[0].value if len(ds) == 1 else None
+    b = b.composed(lookup)
     elt, gens, conds = b.canon()
     pairs = len(gens) == 1 and gens[0][0] == 2 and re.fullmatch(r'(itertools\.)?combinations\((.+),2\)', gens[0][1]) is not None
     ends = elt.startswith('(_g0_0,_g0_1,') or elt.startswith('(_g0_1,_g0_0,')
@@ -584,3 +602,16 @@ def check_tree_connected(ctx):
     ok = len({T(t) for t in trees}) == 1
     ctx.ob('tree-connected', fi, fi.node, ok, 'the junction tree is the spanning tree of that complete clique graph `%s`' % G,
            construct='spanning tree of the clique graph')
+    if assembled is not None:
+        H, node_src, where_ = assembled
+        g_nodes = [T(c.args[0]) for s_, c, pc_, lp in be.calls if isinstance(c.func, ast.Attribute) and c.func.attr == 'add_nodes_from'
+                   and U(c.func.value) == G and c.args]
+        ok = bool(node_src) and bool(g_nodes) and node_src[0] == g_nodes[0]
+        ctx.ob('tree-connected', fi, where_, ok,
+               'a tree assembled from the spanning edges must first receive EVERY maximal clique as a node (`%s.add_nodes_from(<the cliques>)`): '
+               'a graph built from edges alone has no isolated nodes, so a model with one maximal clique (or an isolated clique) would lose it; '
+               'nodes added: %s' % (H, node_src or 'none'), construct='nodes of the assembled spanning tree')
+        R = be.env.get('__ret__')
+        r0 = U(R.elts[0]) if isinstance(R, ast.Tuple) and R.elts else (U(R) if R is not None else None)
+        ctx.ob('tree-connected', fi, fi.node, r0 == H, 'the assembled graph `%s` is what is returned as the tree (returns `%s`)' % (H, r0),
+               construct='assembled spanning tree returned')
